@@ -426,7 +426,9 @@ class PPO(RLAlgorithm):
                     batch_values,
                 ) = get_experiences_samples(minibatch_idxs, *experiences)
 
-                batch_actions = batch_actions.squeeze()
+                batch_actions = batch_actions.reshape(
+                    len(minibatch_idxs), *self.action_space.shape
+                )
                 batch_returns = batch_returns.squeeze()
                 batch_log_probs = batch_log_probs.squeeze()
                 batch_advantages = batch_advantages.squeeze()
